@@ -79,7 +79,7 @@ type Profile struct {
 	PDelay                                                                     float64
 	PNotifier                                                                  float64
 	PUserWG                                                                    float64
-	WWrite, WPrio, WGet, WRefill, WSleep, WRefresh, WIncr, WSet, WEwma, WTotal int
+	WWrite, WPrio, WGet, WRefill, WSleep, WRefresh, WIncr, WSet, WEwma, WTotal, WLateAbort int
 	PQueueAfter                                                                float64
 	PExt                                                                       float64
 	PAbortFinish                                                               float64
@@ -107,7 +107,7 @@ type Profile struct {
 func DefaultProfile(prop string) Profile {
 	return Profile{Prop: prop, MinBars: 1, MaxBars: 5, MaxClients: 3, MaxOps: 12, RefreshW: [3]int{6, 2, 1}, PSmallQueue: 0.15, PSync: 0.4, MaxDecs: 2,
 		PWrap: 0.3, PListener: 0.2, PEwma: 0.15, PBuiltin: 0.1, PPop: 0.2, PRm: 0.2, PNoPop: 0.2, PTerminal: 0.3, PDelay: 0.1, PNotifier: 0.3, PUserWG: 0.15,
-		WWrite: 2, WPrio: 2, WGet: 3, WRefill: 1, WSleep: 3, WRefresh: 4, WIncr: 8, WSet: 2, WEwma: 2, WTotal: 1,
+		WWrite: 2, WPrio: 2, WGet: 3, WRefill: 1, WSleep: 3, WRefresh: 4, WIncr: 8, WSet: 2, WEwma: 2, WTotal: 1, WLateAbort: 3,
 		PQueueAfter: 0.0, PExt: 0.2, PAbortFinish: 0.25, PDropOnAbort: 0.4, PLate: 0.2, PClientAdd: 0.4, PCancelEnd: 0, PPostTerminalOps: 0.1,
 		PZeroTotal: 0.25, PExplicitPrio: 0.3, PLazy: 0.5, PJoin: 0.2, PManualRefresher: 0.8, StrategyW: [4]int{3, 3, 1, 3}, PrioAfterFinish: true}
 }
@@ -508,8 +508,8 @@ func genOp(r *Rand, p *Profile, sc *h.Scenario, cand []*barGen, client int, nWri
 	if sc.Cont.Refresh == h.RefManual {
 		wRefresh = p.WRefresh
 	}
-	kind := r.Weighted(p.WIncr, p.WSet, p.WEwma, p.WRefill, p.WGet, p.WPrio, p.WWrite, p.WSleep, wRefresh, p.WTotal)
-	needBar := kind <= 5 || kind == 9
+	kind := r.Weighted(p.WIncr, p.WSet, p.WEwma, p.WRefill, p.WGet, p.WPrio, p.WWrite, p.WSleep, wRefresh, p.WTotal, p.WLateAbort)
+	needBar := kind <= 5 || kind >= 9
 	var b *barGen
 	if needBar {
 		if len(cand) == 0 {
@@ -594,6 +594,12 @@ func genOp(r *Rand, p *Profile, sc *h.Scenario, cand []*barGen, client int, nWri
 			return h.Op{}, false
 		}
 		op = h.Op{K: h.OpSetTotal, Bar: b.idx, N: b.model.Current + 1 + r.Int63n(40)}
+	case 10:
+		// Abort on a bar that has already finished: a valid call without effect (the usual deferred clean-up)
+		if !b.model.Terminal() {
+			return h.Op{}, false
+		}
+		op = h.Op{K: h.OpAbort, Bar: b.idx, Flag: r.Bool(0.5)}
 	}
 	if b != nil {
 		b.model.Apply(op)
